@@ -1,7 +1,7 @@
 (* Proofs about OSU.Model.WindInversion: the hybrid Newton solver (partial correctness, bracket
    invariant, enclosure in the bounds), the inversion driver (zero-dissipation rule, direction rule,
    balance function, NaN rule, batch independence). *)
-From Coq Require Import Reals List Arith Bool ZArith Lra Lia.
+From Coq Require Import Reals Ranalysis5 List Arith Bool ZArith Lra Lia.
 From OSU.Model Require Import WindInversion.
 Import ListNotations.
 Open Scope R_scope.
@@ -137,19 +137,20 @@ Section SolverProofs.
       destruct (aitken_next s) as [nxt|]; [|exact I].
       destruct HI as [Ho H0 H1 Hb [Hlx Hl0] [Hhx Hh1]].
       pose proof (finish_post s fx (rb0 s) (rb1 s) (fb0 s) (fb1 s) (bnd s) nxt Ho H0 H1 Hb Hlx Hl0 Hhx Hh1) as HF.
-      destruct (finish c s fx (rb0 s) (rb1 s) (fb0 s) (fb1 s) (bnd s) nxt) as [s'|x|r]; cbn; auto.
-      + destruct HF as [Hi [Hx [Hr0 [Hr1 Hbn]]]]. repeat split; auto.
-        * intros Hbt. rewrite Hbn. exact Hbt.
-        * rewrite Hr0. lra.
-        * rewrite Hr1. lra.
-      + destruct HF as [Hc [Hl [Hh Hbb]]]. repeat split; auto; apply Hbb; auto.
+      destruct (finish c s fx (rb0 s) (rb1 s) (fb0 s) (fb1 s) (bnd s) nxt) as [s'|x|r]; cbn [post].
+      + destruct HF as [Hi [Hx [Hr0 [Hr1 Hbn]]]].
+        split; [exact Hi|]. split; [exact Hx|].
+        intros Hbt. rewrite Hbn, Hr0, Hr1. split; [exact Hbt|]. split; lra.
+      + destruct HF as [Hc [Hl [Hh Hbb]]].
+        split; [exact Hc|]. split; [exact Hl|]. split; [exact Hh|exact Hbb].
+      + exact I.
     - (* regular step *)
       pose proof (upd_bracket_spec s fx HI Hfx) as HU.
       destruct (upd_bracket s fx) as [[[r0 g0] r1] g1].
       destruct HU as [[Ha Hc] [Hf0 [Hf1 [Hl0 [Hh1 Hm]]]]].
       destruct HI as [Ho H0 H1 Hb [Hlx _] [Hhx _]].
       assert (Hbnew : sgn_lt0 g0 g1 = true -> g0 * g1 < 0 /\ r0 <= x2 s <= r1).
-      { unfold sgn_lt0. destruct (Rlt_dec (g0 * g1) 0); [split; [assumption|lra]|discriminate]. }
+      { unfold sgn_lt0. destruct (Rlt_dec (g0 * g1) 0); [intros _; split; [assumption|lra]|discriminate]. }
       assert (Hmono : bnd s = true -> sgn_lt0 g0 g1 = true).
       { intros Hbt. destruct (Hm Hbt) as [Hp _]. unfold sgn_lt0. destruct (Rlt_dec (g0 * g1) 0); [reflexivity|contradiction]. }
       assert (Hord : r0 <= r1) by lra.
@@ -157,16 +158,17 @@ Section SolverProofs.
       assert (HF : forall nxt, post s (finish c s fx r0 r1 g0 g1 (sgn_lt0 g0 g1) nxt)).
       { intros nxt.
         pose proof (finish_post s fx r0 r1 g0 g1 (sgn_lt0 g0 g1) nxt Hord Hf0 Hf1 Hbnew Hlx Hl0 Hhx Hh1) as HF.
-        destruct (finish c s fx r0 r1 g0 g1 (sgn_lt0 g0 g1) nxt) as [s'|x|r]; cbn; auto.
-        - destruct HF as [Hi [Hx [Hr0 [Hr1 Hbn]]]]. repeat split; auto.
-          + rewrite Hbn. apply Hmono; auto.
-          + rewrite Hr0. apply Hm; auto.
-          + rewrite Hr1. apply Hm; auto.
-        - destruct HF as [Hcl [Hl [Hh Hbb]]]. repeat split; auto.
-          + destruct (Hm H) as [_ [? _]]. destruct (Hbb (Hmono H)). lra.
-          + destruct (Hm H) as [_ [_ ?]]. destruct (Hbb (Hmono H)). lra. }
+        destruct (finish c s fx r0 r1 g0 g1 (sgn_lt0 g0 g1) nxt) as [s'|x|r]; cbn [post].
+        - destruct HF as [Hi [Hx [Hr0 [Hr1 Hbn]]]].
+          split; [exact Hi|]. split; [exact Hx|].
+          intros Hbt. rewrite Hbn, Hr0, Hr1. destruct (Hm Hbt) as [_ [? ?]].
+          split; [apply Hmono; exact Hbt|]. split; assumption.
+        - destruct HF as [Hcl [Hl [Hh Hbb]]].
+          split; [exact Hcl|]. split; [exact Hl|]. split; [exact Hh|].
+          intros Hbt. destruct (Hm Hbt) as [_ [? ?]]. destruct (Hbb (Hmono Hbt)). lra.
+        - exact I. }
       destruct (Req_EM_T d 0).
-      + destruct (sgn_lt0 g0 g1) eqn:Eb; [|exact I]. rewrite <- Eb. apply HF.
+      + destruct (sgn_lt0 g0 g1) eqn:Eb; [|exact I]. apply HF.
       + apply HF.
   Qed.
 
@@ -239,7 +241,8 @@ Section SolverProofs.
     pose proof (init_inv guess a b Ea Eb Hl Hh) as HI0.
     destruct (reach_inv _ _ _ _ Hr HI0) as [HI _].
     pose proof (step_post it s HI) as HP. rewrite Hs in HP. destruct HP as [Hc [Hlo [Hhi Hb]]].
-    exists it, s. repeat split; auto. exists a, b. exact Hr.
+    exists it, s. split; [exists a, b; exact Hr|]. split; [exact HI|]. split; [exact Hc|].
+    split; [exact Hlo|]. split; [exact Hhi|exact Hb].
   Qed.
 
   (* last step below the tolerances (no premise on the bounds is needed for this part) *)
@@ -258,7 +261,7 @@ Section SolverProofs.
       destruct (finish_cases c s fx r0 r1 g0 g1 bb nxt) as [E'|[[E' Hc]|E']]; rewrite E' in E; try discriminate.
       inversion E; subst. exact Hc. }
     destruct (andb (c_aitken c) (Nat.eqb (it mod 3) 0)).
-    - destruct (aitken_next f s); [|discriminate]. eapply HF; eauto.
+    - destruct (aitken_next s); [|discriminate]. eapply HF; eauto.
     - destruct (upd_bracket s fx) as [[[r0 g0] r1] g1].
       destruct (derivative f c it s fx (sgn_lt0 g0 g1)) as [[d|]|]; try discriminate.
       destruct (Req_EM_T d 0).
@@ -294,7 +297,7 @@ Proof.
   intros g lo hi Hc Hle Hs.
   assert (Hlt : lo < hi).
   { destruct Hle as [|E]; auto. subst. exfalso.
-    assert (0 <= g hi * g hi) by (rewrite <- Rsqr_def; apply Rle_0_sqr). lra. }
+    pose proof (Rle_0_sqr (g hi)) as Hq. unfold Rsqr in Hq. lra. }
   destruct (Rlt_dec (g lo) 0) as [Hn|Hn].
   - assert (0 < g hi).
     { destruct (Rlt_dec 0 (g hi)); auto. exfalso.
@@ -365,10 +368,13 @@ Proof. intros [x|x|e] u H; cbn in H; try discriminate. inversion H; reflexivity.
 
 Lemma value_of_true_none : forall r, value_of true r = None <-> (forall u, r <> Converged u).
 Proof.
-  intros [x|x|e]; cbn; split; intros H; try discriminate; try reflexivity.
+  intros [x|x|e]; cbn; split; intros H.
+  - discriminate.
   - exfalso. apply (H x). reflexivity.
   - intros u E; discriminate.
+  - reflexivity.
   - intros u E; discriminate.
+  - reflexivity.
 Qed.
 
 (* zero integrated dissipation => U10 = 0, direction = dissipation direction *)
@@ -525,3 +531,130 @@ Proof. intros. apply map_length. Qed.
 Lemma inversion_batch_app : forall g diriter ps qs,
   u10_from_spectra g diriter (ps ++ qs) = u10_from_spectra g diriter ps ++ u10_from_spectra g diriter qs.
 Proof. intros. apply map_app. Qed.
+
+(* ------------------------------------------------------------------ *)
+(* further facts about the solver                                      *)
+(* ------------------------------------------------------------------ *)
+Lemma newton_converged_bounds : forall f c guess x,
+  newton f c guess = Converged x ->
+  in_lo (c_lo c) (guess - 1 / 2 * Rabs guess) -> in_hi (c_hi c) (guess + 1 / 2 * Rabs guess) ->
+  in_lo (c_lo c) x /\ in_hi (c_hi c) x.
+Proof.
+  intros f c guess x H Hl Hh.
+  destruct (newton_converged f c guess x H Hl Hh) as [it [s [_ [_ [_ [A [B _]]]]]]]. split; assumption.
+Qed.
+
+(* the call made by the inversion: bounds (0, inf); a non-negative first guess gives a non-negative wind *)
+Lemma newton_driver_nonneg : forall f guess x,
+  0 <= guess -> newton f driver_cfg guess = Converged x -> 0 <= x.
+Proof.
+  intros f guess x Hg H.
+  destruct (newton_converged_bounds f driver_cfg guess x H) as [A _].
+  - cbn. rewrite Rabs_right by lra. lra.
+  - cbn. exact I.
+  - exact A.
+Qed.
+
+(* the run depends on the function only through its values *)
+Lemma step_ext : forall f g c it s, (forall x, f x = g x) -> step f c it s = step g c it s.
+Proof.
+  intros f g c it s E. unfold step, derivative. rewrite E.
+  destruct (g (x2 s)); auto.
+  destruct (andb (c_aitken c) (Nat.eqb (it mod 3) 0)); auto.
+  destruct (upd_bracket s r) as [[[r0 g0] r1] g1].
+  rewrite E. reflexivity.
+Qed.
+
+Lemma loop_ext : forall f g c fuel it s, (forall x, f x = g x) -> loop f c fuel it s = loop g c fuel it s.
+Proof.
+  intros f g c fuel. induction fuel; intros it s E; cbn; auto.
+  rewrite (step_ext f g c it s E). destruct (step g c it s); auto.
+Qed.
+
+Lemma newton_ext : forall f g c guess, (forall x, f x = g x) -> newton f c guess = newton g c guess.
+Proof.
+  intros f g c guess E. unfold newton. rewrite !E.
+  destruct (g (guess - 1 / 2 * Rabs guess)); auto.
+  destruct (g (guess + 1 / 2 * Rabs guess)); auto.
+  apply loop_ext; auto.
+Qed.
+
+(* an exception of the function at the first bracket or at any visited iterate ends the run *)
+Lemma newton_raises_at_bracket : forall f c guess,
+  f (guess - 1 / 2 * Rabs guess) = None -> newton f c guess = Failed FunRaise.
+Proof. intros f c guess H. unfold newton. rewrite H. reflexivity. Qed.
+
+Lemma step_raises : forall f c it s, f (x2 s) = None -> step f c it s = SFail FunRaise.
+Proof. intros f c it s H. unfold step. rewrite H. reflexivity. Qed.
+
+(* ------------------------------------------------------------------ *)
+(* direction                                                           *)
+(* ------------------------------------------------------------------ *)
+Lemma fmod_range : forall x p, 0 < p -> 0 <= fmod x p < p.
+Proof.
+  intros x p Hp. unfold fmod.
+  destruct (base_Int_part (x / p)) as [A B].
+  assert (E : x = x / p * p) by (field; lra).
+  split.
+  - assert (IZR (Int_part (x / p)) * p <= x / p * p) by (apply Rmult_le_compat_r; lra). lra.
+  - assert (x / p * p - IZR (Int_part (x / p)) * p < 1 * p).
+    { rewrite <- Rmult_minus_distr_r. apply Rmult_lt_compat_r; lra. }
+    lra.
+Qed.
+
+Lemma diss_direction_range : forall D k g, 0 <= diss_direction D k g < 360.
+Proof. intros. unfold diss_direction. apply fmod_range. lra. Qed.
+
+Lemma wrap180_range : forall d, -180 <= wrap180 d < 180.
+Proof. intros d. unfold wrap180. pose proof (fmod_range (d + 180) 360). lra. Qed.
+
+(* ------------------------------------------------------------------ *)
+(* non-vacuity: a concrete converged run                               *)
+(* ------------------------------------------------------------------ *)
+Ltac decide_R :=
+  repeat match goal with
+  | |- context [Rlt_dec ?a ?b] => destruct (Rlt_dec a b); try (exfalso; lra)
+  | |- context [Rgt_dec ?a ?b] => destruct (Rgt_dec a b); try (exfalso; lra)
+  | |- context [Req_EM_T ?a ?b] => destruct (Req_EM_T a b); try (exfalso; lra)
+  end.
+
+Lemma loop_done_first : forall f c k it s x, step f c it s = SDone x -> loop f c (S k) it s = Converged x.
+Proof. intros. cbn [loop]. rewrite H. reflexivity. Qed.
+
+Lemma linear_step : 
+  step (fun t => Some (t - 3)) driver_cfg 1 (init_state 3 (3 - 1/2*Rabs 3 - 3) (3 + 1/2*Rabs 3 - 3)) = SDone 3.
+Proof.
+  unfold step, init_state, driver_cfg. rewrite (Rabs_right 3) by lra.
+  cbn [x0 x1 x2 fprev rb0 rb1 fb0 fb1 bnd c_aitken c_lo c_hi c_atol c_rtol c_step c_relstep c_relax].
+  replace (Nat.eqb (1 mod 3) 0) with false by reflexivity. cbn [andb].
+  unfold upd_bracket, sgn_lt0.
+  cbn [x0 x1 x2 fprev rb0 rb1 fb0 fb1 bnd].
+  decide_R.
+  unfold derivative. cbn [x0 x1 x2 fprev rb0 rb1 fb0 fb1 bnd c_step c_relstep andb Nat.ltb Nat.leb].
+  decide_R.
+  unfold finish, clip.
+  cbn [x0 x1 x2 fprev rb0 rb1 fb0 fb1 bnd c_aitken c_lo c_hi c_atol c_rtol c_step c_relstep c_relax].
+  set (d := (3 + 1 / 1000 - 3 - (3 - 3)) / (1 / 1000)).
+  replace (3 + - (3 - 3) / d * (9 / 10)) with 3 by (unfold Rdiv; ring).
+  rewrite (Rabs_right 3) by lra.
+  rewrite Rmax_left by lra.
+  destruct (Rlt_dec 3 (3 - 1 / 2 * 3)); [exfalso; lra|].
+  destruct (Rgt_dec 3 (3 + 1 / 2 * 3)); [exfalso; lra|].
+  replace (3 - 3) with 0 by ring. rewrite Rabs_R0.
+  destruct (Req_EM_T 3 0); [exfalso; lra|].
+  destruct (Rlt_dec 0 (1 / 100)); [|exfalso; lra].
+  destruct (Rlt_dec (0 / 3) 1); [reflexivity|exfalso; lra].
+Qed.
+
+Lemma linear_run_converges :
+  exists x, newton (fun t => Some (t - 3)) driver_cfg 3 = Converged x /\ Rabs (x - 3) < 1 / 100.
+Proof.
+  exists 3. split.
+  - unfold newton. change (c_maxit driver_cfg - 1)%nat with 99%nat.
+    apply loop_done_first. apply linear_step.
+  - replace (3 - 3) with 0 by ring. rewrite Rabs_R0. lra.
+Qed.
+
+Lemma driver_first_bracket_ok : forall guess, 0 <= guess ->
+  in_lo (c_lo driver_cfg) (guess - 1 / 2 * Rabs guess) /\ in_hi (c_hi driver_cfg) (guess + 1 / 2 * Rabs guess).
+Proof. intros guess H. cbn. rewrite Rabs_right by lra. split; [lra|exact I]. Qed.
